@@ -117,12 +117,13 @@ func checkMain(args []string) int {
 		return 2
 	}
 	broken := []string{}
+	var missing [][2]string
 	var results []*FuncResult
 	seen := map[*ssa.Function]bool{}
 	add := func(name string, sweep bool, needContract bool) {
 		fn, err := w.find(name)
 		if err != nil {
-			broken = append(broken, err.Error())
+			missing = append(missing, [2]string{name, "function under contract not found in the current tree: " + err.Error()})
 			return
 		}
 		if seen[fn] {
@@ -196,8 +197,20 @@ func checkMain(args []string) int {
 	if lr := verifyLemmas(w, ss); len(lr.Obls) > 0 || len(lr.Errors) > 0 {
 		results = append(results, lr)
 	}
+	// a contract clause that cannot be interpreted on the current code (a local, loop or call it names is gone; a
+	// function under contract has disappeared) is an obligation that cannot be established, not a tool failure
+	var ungenerated []*Obligation
+	mismatch := func(fn, msg string) {
+		ungenerated = append(ungenerated, &Obligation{Name: fmt.Sprintf("%s/contract#%d", fn, len(ungenerated)+1), Class: "contract", Fn: fn,
+			Text: msg, Result: &SolveResult{Status: "not-generated", Output: msg}})
+	}
 	for _, r := range results {
-		broken = append(broken, r.Errors...)
+		for _, e := range r.Errors {
+			mismatch(r.Name, e)
+		}
+	}
+	for _, m := range missing {
+		mismatch(m[0], m[1])
 	}
 	sec := cfg.QuickSec
 	if sec == 0 {
@@ -313,7 +326,11 @@ func checkMain(args []string) int {
 			}
 		}
 	}
-	if total < cfg.Floor {
+	for _, o := range ungenerated {
+		total++
+		failing = append(failing, o)
+	}
+	if total < cfg.Floor && len(ungenerated) == 0 {
 		broken = append(broken, fmt.Sprintf("only %d obligations generated, floor is %d (vacuity guard)", total, cfg.Floor))
 	}
 	sort.Strings(knownHit)
